@@ -106,6 +106,7 @@ func (w *worker) recordEval(c *recCase, raw []byte) {
 	rs := []rune(text)
 	w.count("cases", 1)
 	w.count("src:"+c.Src, 1)
+	firstNorm := ""
 	for _, number := range []bool{false, true} {
 		doc, err := decodeDoc(c.Doc, number)
 		if err != nil {
@@ -170,6 +171,27 @@ func (w *worker) recordEval(c *recCase, raw []byte) {
 				w.viol("C04", "earlier-document-modified-by-a-later-call", text, w.lastSnap, "this retrieval changed the document of the PREVIOUS retrieval ("+w.lastText+") to "+snap(w.lastDoc), "doc", raw)
 			}
 			w.lastDoc, w.lastSnap, w.lastText = doc, after, text
+		}
+		// ---- C10: the same members whatever the number decoding (numbers compared by value)
+		if P["C10"] && c.Src != "extreme-numbers" {
+			norm := ""
+			if r.Err != nil {
+				norm = "ERR " + errClass(r.Err)
+			} else {
+				parts := []string{}
+				for _, v := range r.Vals {
+					parts = append(parts, nsnap(v))
+				}
+				norm = strings.Join(parts, ",")
+			}
+			if !number {
+				firstNorm = norm
+			} else {
+				w.count("C10:mode-pairs", 1)
+				if norm != firstNorm {
+					w.viol("C10", "decode-mode-changes-result", text, before, fmt.Sprintf("decoded to float64: %s ; decoded to json.Number: %s", firstNorm, norm), "traceB", raw)
+				}
+			}
 		}
 		if r.Err == nil {
 			w.distinct(fmt.Sprintf("ok|%d|%s", len(r.Vals), c.Src))
@@ -633,4 +655,31 @@ func lawFuzzMain(args []string) {
 	}
 	b, _ := json.Marshal(o)
 	os.Stdout.Write(b)
+}
+
+// nsnap is snap with numbers printed by value, whatever their decoding
+func nsnap(g interface{}) string {
+	switch x := g.(type) {
+	case float64, json.Number:
+		f, _ := numOf(x)
+		return fmt.Sprintf("#%v", f)
+	case []interface{}:
+		parts := make([]string, len(x))
+		for i := range x {
+			parts[i] = nsnap(x[i])
+		}
+		return "[" + strings.Join(parts, ",") + "]"
+	case map[string]interface{}:
+		keys := make([]string, 0, len(x))
+		for k := range x {
+			keys = append(keys, k)
+		}
+		sort.Strings(keys)
+		parts := make([]string, len(keys))
+		for i, k := range keys {
+			parts[i] = fmt.Sprintf("%q:%s", k, nsnap(x[k]))
+		}
+		return "{" + strings.Join(parts, ",") + "}"
+	}
+	return snap(g)
 }
